@@ -615,13 +615,18 @@ def _order(check: Check, impls):
     ok = ok and len(ys) >= 1
     check.ob('R-ORDER.get-clients', gc, f'{ci.name}.get_clients', ok, 'clients are produced by one pass over the requested ids, in request order')
     shuffled_stream(check, ci, 'R-ORDER.shuffled')
+  sorted_ids_rule(check, 'R-ORDER.sorted')
+
+
+def sorted_ids_rule(check: Check, rule: str):
+  repo = check.repo
   # deterministic order of id iteration for the dict/set backed implementations
   for modname, cname in ((IMFD, 'InMemoryFederatedData'), (FD, 'SubsetFederatedData')):
     ci = repo.cls(modname, cname)
     mth = ci.method('client_ids')
     ff = FuncFlow.of(repo, mth)
     ok = any(isinstance(x, ast.Call) and ff.ext(x.func) == 'builtins.sorted' for _, rv in ff.returns() for x in ast.walk(rv))
-    check.ob('R-ORDER.sorted', mth, f'{cname}.client_ids', ok, 'ids are iterated in sorted order (deterministic)')
+    check.ob(rule, mth, f'{cname}.client_ids', ok, 'ids are iterated in sorted order (deterministic)')
     cl = ci.method('clients')
     cff = FuncFlow.of(repo, cl)
     srcs = [c.args[0] for _, c in cff.calls() if txt(c.func) == 'self.get_clients' and c.args]
@@ -634,7 +639,7 @@ def _order(check: Check, impls):
         init = ci.method('__init__')
         ok2 = any(isinstance(st, ast.Assign) and txt(st.targets[0]) == 'self._client_ids' and isinstance(st.value, ast.Call) and txt(
             st.value.func) == 'sorted' for st in ast.walk(init.node))
-    check.ob('R-ORDER.sorted', cl, f'{cname}.clients', ok2, 'clients() iterates the sorted ids')
+    check.ob(rule, cl, f'{cname}.clients', ok2, 'clients() iterates the sorted ids')
 
 
 def _empty(check: Check, impls):
